@@ -550,3 +550,34 @@ Lemma resolve_dot_free : forall base p, base <> [] -> dot_free p -> resolve base
 Proof.
   intros base p Hb Hp. rewrite resolve_render, join_dot_free, url_names_dot_free by assumption. reflexivity.
 Qed.
+
+(** * judging modulo lexical cleaning of the output *)
+
+Lemma clean_render : forall r st, nf r (rev st) -> clean (render r st) = render r st.
+Proof. intros r st H. unfold clean. rewrite is_rooted_render, segs_render by assumption. reflexivity. Qed.
+
+Lemma clean_attach : forall base q, Forall ordinary q -> clean (attach (clean base) q) = attach (clean base) q.
+Proof.
+  intros base q Hq. unfold clean at 2 3.
+  rewrite <- (render_attach (is_rooted base) (segs base) q (nf_segs base)).
+  apply clean_render. now apply nf_base_names.
+Qed.
+
+(** whatever [beneath] accepts is already clean, so cleaning the output first accepts at least as much *)
+Lemma beneath_clean_out : forall base out, beneath (clean base) out = true ->
+  clean out = out /\ beneath (clean base) (clean out) = true.
+Proof.
+  intros base out H. destruct (beneath_sound _ _ H) as (q & Hq & E). subst out.
+  rewrite clean_attach by assumption. split; [reflexivity | exact H].
+Qed.
+
+Lemma resolve_clean : forall base p, base <> [] -> clean (resolve base p) = resolve base p.
+Proof.
+  intros base p Hb. destruct (beneath_clean_out base (resolve base p) (resolve_beneath base p Hb)) as [E _]. exact E.
+Qed.
+
+Lemma resolve_beneath_clean : forall base p, base <> [] -> beneath (clean base) (clean (resolve base p)) = true.
+Proof. intros base p Hb. rewrite resolve_clean by assumption. now apply resolve_beneath. Qed.
+
+Lemma join_clean : forall a b, a <> [] -> clean (join a b) = join a b.
+Proof. intros [|x a] b H; [congruence|]. cbn [join]. apply clean_idem. Qed.
